@@ -24,6 +24,9 @@ Inductive action :=
 | ASetQid (n : N)
 | AExpire                               (* the armed read deadline expires: Read fails with a timeout *)
 | ARunt (n : N)
+| AFeedEof (f : feed)                   (* stream framing: the last bytes of the frame come back from Read together with EOF *)
+| AFeedHold (f : feed)                  (* the reader reads the frame and looks up its waiter, then is parked before the hand-over *)
+| AReaderGo                             (* the parked reader hands the frame over and reads on *)
 | ASleep.                               (* datagram framing only: more than a second of real time passes (the caller re-sends) *)                        (* datagram framing only: a datagram of n < 12 bytes arrives; the reader skips it *)                      (* test hook VerifSetNextQid: forces the wire-id counter *)
 
 (** What the harness saw. [o_code]: AReserve: 0 admitted, 1 refused (full),
@@ -98,6 +101,21 @@ Definition exec_action (s : st) (held : list nat) (a : action) (o : obs) : optio
              | FStray w tag => mkReply w w tag None
              end in
     match steps s [LRecv r; LLookup; LHandoff] with Some s1 => Some (s1, held, true) | None => None end
+  | AFeedEof f =>
+    let r := match f with
+             | FReply c tag => let w := cwid (calls s c) in mkReply w w tag (Some c)
+             | FStray w tag => mkReply w w tag None
+             end in
+    if is_tcp s then
+      match steps s [LRecv r; LLookup; LHandoff; LRecvErr] with Some s1 => Some (s1, held, true) | None => None end
+    else None
+  | AFeedHold f =>
+    let r := match f with
+             | FReply c tag => let w := cwid (calls s c) in mkReply w w tag (Some c)
+             | FStray w tag => mkReply w w tag None
+             end in
+    match steps s [LRecv r; LLookup] with Some s1 => Some (s1, held, true) | None => None end
+  | AReaderGo => match step s LHandoff with Some s1 => Some (s1, held, true) | None => None end
   | AFeedErr => match step s LRecvErr with Some s1 => Some (s1, held, true) | None => None end
   | AClose =>
     match step s LClose with
@@ -238,7 +256,8 @@ Fixpoint orig_of (c : nat) (sc : list (action * obs)) : N :=
 Fixpoint tags_for (c : nat) (sc : list (action * obs)) : list N :=
   match sc with
   | [] => []
-  | (AFeed (FReply c' tag), _) :: t => if Nat.eqb c c' then tag :: tags_for c t else tags_for c t
+  | (AFeed (FReply c' tag), _) :: t | (AFeedEof (FReply c' tag), _) :: t | (AFeedHold (FReply c' tag), _) :: t =>
+    if Nat.eqb c c' then tag :: tags_for c t else tags_for c t
   | _ :: t => tags_for c t
   end.
 
@@ -256,7 +275,8 @@ Definition spec_c01 (cs : case) : bool :=
 (** C02: walk the script keeping, per call, whether it is in flight and which
     reply (if any) it is owed: a reply fed while the call is registered (its
     query written, not yet returned) and not cancelled is owed to it. *)
-Record trk := mkTrk { t_inflight : list nat; t_cancelled : list nat; t_owed : list (nat * N) }.
+Record trk := mkTrk { t_inflight : list nat; t_cancelled : list nat; t_owed : list (nat * N);
+                      t_pend : option (nat * N)   (* the reply the parked reader holds *) }.
 
 Definition owed_of (c : nat) (l : list (nat * N)) : option N :=
   match find (fun x => Nat.eqb (fst x) c) l with Some (_, t) => Some t | None => None end.
@@ -268,24 +288,34 @@ Definition c02_ret_ok (script : list (action * obs)) (tk : trk) (x : nat * N * N
   | None => true
   end.
 
+(** A reply counts as received for its call when the reader hands it over while the call is registered
+    (its query written, not yet returned), not cancelled, and not already owed one. *)
+Definition c02_deliver (tk : trk) (c : nat) (tag : N) : trk :=
+  if mem_nat c (t_inflight tk) && negb (mem_nat c (t_cancelled tk))
+     && match owed_of c (t_owed tk) with None => true | Some _ => false end
+  then mkTrk (t_inflight tk) (t_cancelled tk) ((c, tag) :: t_owed tk) (t_pend tk) else tk.
+
 Fixpoint c02_walk (script : list (action * obs)) (tk : trk) (sc : list (action * obs)) : bool :=
   match sc with
   | [] => (* a call still owed a reply at the end must not be blocked for ever: it is held or unreleased *) true
   | (a, o) :: t =>
     let tk1 :=
       match a with
-      | AStart c => if o_code o =? 0 then tk else mkTrk (c :: t_inflight tk) (t_cancelled tk) (t_owed tk)
-      | ACancel c => mkTrk (t_inflight tk) (c :: t_cancelled tk) (t_owed tk)
-      | AFeed (FReply c tag) =>
-        if mem_nat c (t_inflight tk) && negb (mem_nat c (t_cancelled tk))
-           && match owed_of c (t_owed tk) with None => true | Some _ => false end
-        then mkTrk (t_inflight tk) (t_cancelled tk) ((c, tag) :: t_owed tk) else tk
+      | AStart c => if o_code o =? 0 then tk else mkTrk (c :: t_inflight tk) (t_cancelled tk) (t_owed tk) (t_pend tk)
+      | ACancel c => mkTrk (t_inflight tk) (c :: t_cancelled tk) (t_owed tk) (t_pend tk)
+      | AFeed (FReply c tag) | AFeedEof (FReply c tag) => c02_deliver tk c tag
+      | AFeedHold (FReply c tag) => mkTrk (t_inflight tk) (t_cancelled tk) (t_owed tk) (Some (c, tag))
+      | AReaderGo =>
+        match t_pend tk with
+        | Some (c, tag) => c02_deliver (mkTrk (t_inflight tk) (t_cancelled tk) (t_owed tk) None) c tag
+        | None => tk
+        end
       | _ => tk
       end in
     forallb (c02_ret_ok script tk1) (o_ret o)
     && c02_walk script
          (mkTrk (filter (fun c => match ret_of c o with Some _ => false | None => true end) (t_inflight tk1))
-                (t_cancelled tk1) (t_owed tk1)) t
+                (t_cancelled tk1) (t_owed tk1) (t_pend tk1)) t
   end.
 
 (** … and at the end no call that is owed a reply is still blocked unless the
@@ -305,7 +335,7 @@ Fixpoint owed_calls (script : list (action * obs)) (inflight cancelled owed : li
     let inflight1 := match a with AStart c => if o_code o =? 0 then inflight else c :: inflight | _ => inflight end in
     let cancelled1 := match a with ACancel c => c :: cancelled | _ => cancelled end in
     let owed1 := match a with
-                 | AFeed (FReply c _) =>
+                 | AFeed (FReply c _) | AFeedEof (FReply c _) =>
                    if mem_nat c inflight1 && negb (mem_nat c cancelled1) then c :: owed else owed
                  | _ => owed end in
     owed_calls script (filter (fun c => match ret_of c o with Some _ => false | None => true end) inflight1)
@@ -325,7 +355,7 @@ Fixpoint in_write_at_end (w : list nat) (sc : list (action * obs)) : list nat :=
 Definition spec_c02 (cs : case) : bool :=
   match cs with
   | CTdc _ _ _ script _ _ _ fb _ =>
-    c02_walk script (mkTrk [] [] []) script
+    c02_walk script (mkTrk [] [] [] None) script
     && forallb (fun c => negb (mem_nat c (owed_calls script [] [] [] script))
                          || mem_nat c (held_at_end [] script) || mem_nat c (in_write_at_end [] script)) fb
   end.
@@ -388,8 +418,9 @@ Fixpoint c07_walk (strict : bool) (tk : trk7) (sc : list (action * obs)) : bool 
       | AWriteEnd c true _ => mkTrk7 (k_inflight tk) (if mem_nat c (k_replied tk) then k_waiting tk else c :: k_waiting tk) (k_cancelled tk) (k_closed tk) (k_replied tk)
       | AWriteEnd c false _ => mkTrk7 (k_inflight tk) (k_waiting tk) (k_cancelled tk) true (k_replied tk)
       | ACancel c => mkTrk7 (k_inflight tk) (k_waiting tk) (c :: k_cancelled tk) (k_closed tk) (k_replied tk)
-      | AFeedErr | AClose | AExpire => mkTrk7 (k_inflight tk) (k_waiting tk) (k_cancelled tk) true (k_replied tk)
-      | AFeed (FReply c _) => mkTrk7 (k_inflight tk) (remove_nat c (k_waiting tk)) (k_cancelled tk) (k_closed tk) (if mem_nat c (k_inflight tk) then c :: k_replied tk else k_replied tk)
+      | AFeedErr | AClose | AExpire | AFeedEof (FStray _ _) => mkTrk7 (k_inflight tk) (k_waiting tk) (k_cancelled tk) true (k_replied tk)
+      | AFeed (FReply c _) | AFeedHold (FReply c _) => mkTrk7 (k_inflight tk) (remove_nat c (k_waiting tk)) (k_cancelled tk) (k_closed tk) (if mem_nat c (k_inflight tk) then c :: k_replied tk else k_replied tk)
+      | AFeedEof (FReply c _) => mkTrk7 (k_inflight tk) (remove_nat c (k_waiting tk)) (k_cancelled tk) true (if mem_nat c (k_inflight tk) then c :: k_replied tk else k_replied tk)
       | _ => tk
       end in
     let gone c := match ret_of c o with Some _ => false | None => true end in
